@@ -13,3 +13,4 @@ import SwhVerif.Props.C10
 #print axioms Swh.C10.delAt_removes_exactly_one
 #print axioms Swh.C10.exOps_acyclic
 #print axioms Swh.C10.exDirOps_acyclic
+#print axioms Swh.C10.exPermOps_acyclic
